@@ -176,6 +176,13 @@ def _check_path(res, wf, p):
             i = j
             continue
         i += 1
+    if p.end == "exit" and p.ret() is not None:
+        # R4: what the function reports to its caller must not depend on how write(2) fragmented the data
+        rv = APE.vstr(p.ret())
+        res.check("write(" not in rv, "C20.R4", site(wf, "return-independent-of-fragmentation"),
+                  "the value returned to the caller does not contain a write(2) result",
+                  "the write loop returns %s, a quantity that depends on the size of the last write(2) call: after a short write callers account the wrong number of bytes "
+                  "(offsets and trailer fields differ from the unfragmented run)" % rv[:80], wf.loc(p.events[-1].node), p.describe(wf))
     if p.end == "exit":
         c = p.cons.get((APE.vstr(cur_s), "#0"))
         res.check(c == frozenset((EQ,)), "C20.R2", site(wf, "return"),
